@@ -126,6 +126,29 @@ CHECKS.update({
         design_ref='DESIGN.md §3.3, §4 C18', note=META_NOTE),
 })
 
+
+OAL_NOTE = ('trusted: TLC; the renderer vt/adapters/oal_render.py (it reports where it put each token); the conversion of the '
+            'parser\'s node classes to the specification\'s records in vt/adapters/oal.py; the parser tables are regenerated from '
+            'the current grammar for every check')
+CHECKS.update({
+    'C07': dict(
+        technique='OalSyntax.tla (precedence table, Unparse, reference precedence-climbing parser RefParse): TLC enumerates every '
+                  'expression tree of depth <= 3 and proves RefParse(Unparse(t)) = t; every tree and generated statement programs are '
+                  'rendered with random layout / comments / optional words / redundant parentheses, parsed by the real parser and the '
+                  'returned tree is validated by TLC (OalTrace.tla) against the tree and the reference parse',
+        text='Exhaustive over all operator pairs in both positions (8,603 trees quick, 97,890 thorough), so every precedence and '
+             'associativity decision of the grammar is exercised against an independent reference parser that TLC has checked '
+             'against the specification\'s own unparser; statements of every production by seeded generation.',
+        design_ref='DESIGN.md §3.4, §4 C07', note=OAL_NOTE),
+    'C13': dict(
+        technique='OalSyntax.tla Ranges (token span of every statement and expression node) validated by TLC against the positions '
+                  'recorded from the real parser for rendered multi-line texts; totality by token mutants, token soups, noise and '
+                  'adversarial unterminated forms under a time budget (OalTrace!Total)',
+        text='Which tokens delimit a node is derived from the syntax tree by the specification; the adapter only reports where the '
+             'renderer put each token and what the parser recorded, for every node of every text of the C07 corpus.',
+        design_ref='DESIGN.md §3.4, §4 C13', note=OAL_NOTE),
+})
+
 NOT_YET = {}
 
 
